@@ -6,7 +6,7 @@ func init() {
 	add := func(prop string, ms ...Mutant) { mutants[prop] = append(mutants[prop], ms...) }
 
 	add("C01",
-		Mutant{Name: "map-values-inferred-from-key-type", File: "proto/col_map.go", Old: "\t\tct := ColumnType(strings.TrimSpace(valtype))", New: "\t\tct := ColumnType(strings.TrimSpace(keytype))", Rule: "C01.mapinfer", Construct: "ColMap.Infer/Values"},
+		Mutant{Name: "map-values-inferred-from-key-type", File: "proto/col_map.go", Old: "\t\tct := ColumnType(strings.TrimSpace(valtype))", New: "\t\t_ = valtype\n\t\tct := ColumnType(strings.TrimSpace(keytype))", Rule: "C01.mapinfer", Construct: "ColMap.Infer/Values"},
 		Mutant{Name: "tuple-state-stops-at-first-stateless", File: "proto/col_tuple.go", Old: "func (c ColTuple) EncodeState(b *Buffer) {\n\tfor _, v := range c {\n\t\tif s, ok := v.(StateEncoder); ok {\n\t\t\ts.EncodeState(b)\n\t\t}\n\t}\n}", New: "func (c ColTuple) EncodeState(b *Buffer) {\n\tfor _, v := range c {\n\t\ts, ok := v.(StateEncoder)\n\t\tif !ok {\n\t\t\tbreak\n\t\t}\n\t\ts.EncodeState(b)\n\t}\n}", Rule: "C01.forward-all", Construct: "ColTuple.EncodeState"},
 	)
 	add("C02",
